@@ -188,6 +188,8 @@ def server_strategy():
             "masks": st.lists(st.binary(min_size=4, max_size=4), min_size=8, max_size=8),
             "fill": st.lists(st.binary(min_size=1, max_size=5), min_size=8, max_size=8),
             "pad_b64url": st.booleans(),
+            # i-th prepend/append step: None = length only (as parsed from a beacon config), bytes = the literal itself
+            "lits": st.one_of(st.just([None] * 8), st.lists(st.one_of(st.none(), S.arg_bytes), min_size=8, max_size=8)),
         }
     )
 
@@ -198,9 +200,22 @@ def server_execute(case, stats):
     rsteps = [tuple(s) for s in case["rsteps"]]
     out = case["output"]
     has_mask = any(n == "mask" for n, _ in rsteps)
+    # recover-order programs may carry the prepend/append literal instead of only its length
+    lits = list(case.get("lits") or [None] * 8)
+    lib_steps, xfill, k = [], [], 0
+    for i, (n, a) in enumerate(rsteps):
+        lit = None
+        if n in ("append", "prepend"):
+            lit = lits[k] if k < len(lits) else None
+            k += 1
+            if lit is not None:
+                rsteps[i] = (n, len(lit))
+            xfill.insert(0, lit if lit is not None else b"X" * rsteps[i][1])
+        lib_steps.append((n, lit) if lit is not None else rsteps[i])
+    with_literal = lib_steps != rsteps
 
     def new_transform():
-        return lib(c2.HttpDataTransform, list(rsteps), reverse=True, build="output", what="HttpDataTransform(reverse)")
+        return lib(c2.HttpDataTransform, list(lib_steps), reverse=True, build="output", what="HttpDataTransform(reverse)")
 
     state = random.getstate()
     random.seed(case["rng"])
@@ -209,14 +224,14 @@ def server_execute(case, stats):
     finally:
         random.setstate(state)
     body = req.body
-    ctx = lambda: f"rsteps={rsteps!r} output={out!r} body={body!r}"[:1200]
+    ctx = lambda: f"rsteps={lib_steps!r} output={out!r} body={body!r}"[:1200]
     try:
         back = T.server_decode(rsteps, body)
     except Exception as e:
         raise Violation("server:reference_cannot_decode", f"{e!r}; {ctx()}")
     check(back == out, "server:wire_format", lambda: f"reference decode of library body gives {back!r}; {ctx()}")
     if not has_mask and not any(n == "base64url" for n, _ in rsteps):
-        want = T.server_encode(rsteps, out, fill=[b"X"] * 8)
+        want = T.server_encode(rsteps, out, fill=list(xfill))
         check(body == want, "server:placement", lambda: f"expected body {want!r}; {ctx()}")
 
     def recovered(b, what):
@@ -230,7 +245,7 @@ def server_execute(case, stats):
 
     recovered(body, "library body")
     recovered(T.server_encode(rsteps, out, fill=case["fill"], masks=case["masks"], pad_b64url=case["pad_b64url"]), "reference body")
-    stats.note(case, len(rsteps) >= 3 or any(a == 0 and n in ("append", "prepend") for n, a in rsteps), classes=["mask" if has_mask else "no_mask", "steps%d" % min(len(rsteps), 4)])
+    stats.note(case, len(rsteps) >= 3 or any(a == 0 and n in ("append", "prepend") for n, a in rsteps), classes=["mask" if has_mask else "no_mask", "steps%d" % min(len(rsteps), 4), "literal_affix" if with_literal else "length_only_affix"])
 
 
 def anchors():
